@@ -10,11 +10,19 @@ use std::time::{Duration, Instant};
 
 fn scenarios_for(prop: &str, tier: Tier) -> Vec<Box<dyn Scenario>> {
     match prop {
-        "C03" => vec![
-            Box::new(RegistryScenario { minors: vec![14, 17, 20], depth: tier.pick(12, 18), crash_points: false }),
-            Box::new(RegistryScenario { minors: vec![20, 18], depth: tier.pick(12, 16), crash_points: false }),
-            Box::new(RegistryScenario { minors: vec![17, 20], depth: tier.pick(7, 12), crash_points: true }),
-        ],
+        "C03" => {
+            let mut v: Vec<Box<dyn Scenario>> = vec![
+                Box::new(RegistryScenario { minors: vec![14, 17, 20], depth: tier.pick(12, 18), crash_points: false }),
+                Box::new(RegistryScenario { minors: vec![20, 18], depth: tier.pick(12, 16), crash_points: false }),
+                Box::new(RegistryScenario { minors: vec![17, 20], depth: tier.pick(7, 12), crash_points: true }),
+            ];
+            if tier == Tier::Thorough {
+                // four connections; crash points with three
+                v.push(Box::new(RegistryScenario { minors: vec![20, 18, 17, 14], depth: 12, crash_points: false }));
+                v.push(Box::new(RegistryScenario { minors: vec![20, 14, 18], depth: 9, crash_points: true }));
+            }
+            v
+        }
         "C04" => {
             let mut v: Vec<Box<dyn Scenario>> = vec![
                 Box::new(EventsScenario { minors: [20, 20, 14, 20], depth: tier.pick(12, 18) }),
@@ -48,6 +56,8 @@ fn scenarios_for(prop: &str, tier: Tier) -> Vec<Box<dyn Scenario>> {
             ];
             if tier == Tier::Thorough {
                 v.push(Box::new(ChannelsScenario { minors: vec![20, 20, 20], caps: vec![0, 1, 3, 4, 5, 6], grants: vec![0, 1, 2, 5], max_channels: 1, credit_limit: 16, depth: 14 }));
+                // two channels at once, three connections
+                v.push(Box::new(ChannelsScenario { minors: vec![20, 14, 19], caps: vec![0, 1, 5], grants: vec![0, 1, 4], max_channels: 2, credit_limit: 6, depth: 9 }));
             }
             v
         }
